@@ -563,6 +563,16 @@ pub fn plan_history(prop: &str, tier: &str, seed: u64, n: usize) -> Plan {
         }
         cases.push(Case { expect: vec![], name: format!("{prop}-hist{i}-seed{s}"), lines: HistGen::history(s, q) });
     }
+    // long rotations (66 and 130 re-keyings of one policy in a row, nothing pruned): sizes no short history reaches
+    if matches!(prop, "C04" | "C05" | "C16h" | "C13") {
+        for (j, n) in [66usize, 130].into_iter().enumerate() {
+            let s = master.next();
+            let mut q = p.clone();
+            q.max_dims = 2;
+            q.max_attrs = 2;
+            cases.push(Case { expect: vec![], name: format!("{prop}-deep{j}-seed{s}"), lines: HistGen::deep_rotation(s, q, n) });
+        }
+    }
     Plan {
         per_line: false,
         cases,
